@@ -84,6 +84,12 @@ func (c *zzPipe) SetWriteDeadline(t time.Time) error { return nil }
 func zzNewPipeConn(nc *zzPipe) *Conn { return zzNewPipeConnH(nc, nil, 1152) }
 
 func zzNewPipeConnH(nc *zzPipe, handler HandlerFunc, maxSize uint32) *Conn {
+	return zzNewPipeConnX(nc, handler, maxSize, nil)
+}
+
+func zzNewPipeConnMon(nc *zzPipe, mon InactivityMonitor) *Conn { return zzNewPipeConnX(nc, nil, 1152, mon) }
+
+func zzNewPipeConnX(nc *zzPipe, handler HandlerFunc, maxSize uint32, mon InactivityMonitor) *Conn {
 	cfg := Config{}
 	cfg.Ctx = context.Background()
 	cfg.MaxMessageSize = maxSize
@@ -101,6 +107,9 @@ func zzNewPipeConnH(nc *zzPipe, handler HandlerFunc, maxSize uint32) *Conn {
 	cfg.ConnectionCacheSize = 64
 	cfg.DisableTCPSignalMessageCSM = true
 	cfg.CloseSocket = true
+	if mon != nil {
+		return NewConnWithOpts(coapNet.NewConn(nc), &cfg, WithInactivityMonitor(mon))
+	}
 	return NewConnWithOpts(coapNet.NewConn(nc), &cfg)
 }
 
